@@ -49,6 +49,6 @@ theorem backward_operator_stages_wf : backward_operator_stages.head? = some .mas
 /-- the mask function sees `kspace.shape[1:]` (as `applyMaskFunc` models), gets the seed, a tensor
 mask is used unchanged, and the complex axis is asserted -/
 theorem apply_mask_plan_eq : apply_mask_plan = (1, true, true, true) := by decide
-theorem apply_mask_shape_drop_eq : apply_mask_shape_drop = 1 := by decide
+theorem apply_mask_shape_slice_eq : apply_mask_shape_slice = (1, none) := by decide
 
 end DirectVerif.Bridge.C03
